@@ -361,7 +361,8 @@ PROPS = {
         "rule": "random single edits (char-boundary byte ranges, insertions from soup/lexemes) of soup and lexeme texts: "
                 "UPD (impl update vs model update: window and tokens), PROPUPD (update = batch lex of the new text and "
                 "window truthful, evaluated on the implementation and on the model), PROPHIST (chains of 2-12 edits). " + TEXT_RULE,
-        "unproved_parts": [],
+        "unproved_parts": ["none for the model: update_eq_lex, window_truthful, history_eq_lex, lex_local are theorems for all texts and changes; "
+                           "the tie of the model to lexer.rs/tokens.rs is the correspondence run (LEX, UPD) and the generated tables"],
         "escalate": ["PROPUPDX 2 2 " + "a0x/<=:' \né;".encode().hex()],
     },
 }
